@@ -23,6 +23,7 @@ RULE = (
     "character; every single-token deletion that makes the program invalid must be reported at the start of a real token of "
     "the mutated text (or as 'file: ' at end of input). Non-trivial: a file-changing linemarker lies strictly inside a "
     "construct whose coordinate is checked; distinct by hash of the text."
+    " Also: an illegal character at every offset of a line directive behind the first digit of its line number (outside the quoted file name; 12 directive forms x 4 number/name pairs x 6 contexts) must be reported at exactly that column with the file and line in force on the directive's own line. "
 )
 ASSUMPTIONS = [
     "the AST shape is the one C02/C03/C05 establish; nodes for which the model has no token range are only required to name a real token",
@@ -208,6 +209,62 @@ def check_errors(toks, c, st, case):
             st.classes["deletion_errors_file_only"] += 1
 
 
+DIRECTIVE_FORMS = ['# %d "%s"', '#line %d "%s"', '# %d "%s" 1', '# %d "%s" 2 3', '  #  %d "%s"', "# %d", "#line %d", "#\tline %d", '#  line\t%d  "%s"  ', '\t#\t%d\t"%s"\t1', "#line   %d", '%%:line %d "%s"']
+DIRECTIVE_CONTEXTS = [
+    ('int a;\n# 20 "p.h"\nint b;\n', "\nint c;\n", "p.h", 21),
+    ("int a;\n", "\nint c;\n", "t.c", 2),
+    ("void f(void) {\n  int x;\n", "\n  x = 1;\n}\n", "t.c", 3),
+    ("#line 99\nstruct S { int m;\n", "\nint n; };\n", "t.c", 100),
+    ("", "\nint z;\n", "t.c", 1),
+    ('# 7 "a b.h" 1\nint q = 1 +\n', "\n2;\n", "a b.h", 8),
+]
+_DIR_HEAD = re.compile(r"^[ \t]*#[ \t]*(?:line[ \t]*)?(?=\d)")
+
+
+def directive_error_shard(arg):
+    """An illegal character at every offset of a line directive behind the
+    first digit of its line number (outside the quoted file name): the ParseError names
+    exactly that column, with the file and line in force on the directive's
+    own line.  (Before the number the line is no line directive any more and
+    the error is about the '#': no claim.)"""
+    fi, = arg
+    form = DIRECTIVE_FORMS[fi]
+    st = Stats()
+    for num, name in ((5, "a.h"), (12345, "dir/b c.h"), (1, ""), (40, "x:y.h")):
+        text = form % ((num, name) if "%s" in form else (num,))
+        m = _DIR_HEAD.match(text)
+        if not m:
+            st.classes["directive_form_without_claim"] += 1
+            continue
+        q1 = text.find('"')
+        q2 = text.rfind('"')
+        for pre, post, wfile, wline in DIRECTIVE_CONTEXTS:
+            base = parse_outcome(pre + text + post, "t.c", ("t.c", "p.h", "a b.h"))
+            if base[0] != "ast":
+                st.classes["directive_context_not_accepted"] += 1
+                continue
+            for off in range(m.end() + 1, len(text) + 1):
+                if q1 >= 0 and q1 < off <= q2:
+                    continue  # inside the quoted file name
+                for bad in ("@", "`"):
+                    src = pre + text[:off] + bad + text[off:] + post
+                    out = parse_outcome(src, "t.c", ("t.c", "p.h", "a b.h"))
+                    st.evaluations += 1
+                    st.nontrivial += 1
+                    case = ("directive", src, wfile, wline, off + 1)
+                    if out[0] != "perr":
+                        st.failures.append(dict(subcheck="error-location", case=case, text=src, detail="illegal %r inside a line directive at %s:%d:%d not rejected with ParseError (%s)" % (bad, wfile, wline, off + 1, out[0]), sig="illegal-not-rejected"))
+                        continue
+                    mm = _LOC.match(out[1])
+                    got = (mm.group(1), int(mm.group(2)), int(mm.group(3))) if mm else None
+                    if got != (wfile, wline, off + 1):
+                        st.failures.append(dict(subcheck="error-location", case=case, text=src, detail="illegal %r inside a line directive at %s:%d:%d reported as %r" % (bad, wfile, wline, off + 1, out[1][:80]), sig="illegal-char-location-in-directive"))
+                    if len(st.failures) > 20:
+                        return st
+    st.classes["directive_injections"] += st.evaluations
+    return st
+
+
 def random_shard(arg):
     seed, n = arg
     st = Stats()
@@ -228,6 +285,7 @@ def random_shard(arg):
 
 
 def run(ctx):
+    ctx.map(directive_error_shard, [(i,) for i in range(len(DIRECTIVE_FORMS))])
     ctx.map(random_shard, [(s, ctx.pick(300, 3000)) for s in ctx.shard_seeds(16)])
 
 
@@ -237,6 +295,16 @@ def replay(subcheck, case):
     token list (the layout itself is not stored, only its result)."""
     from ..reflex import pp_tokens
 
+    if case[0] == "directive":
+        _, src, wfile, wline, wcol = case
+        out = parse_outcome(src, "t.c", ("t.c", "p.h", "a b.h"))
+        if out[0] != "perr":
+            fail(subcheck, case, src, "illegal character inside a line directive not rejected with ParseError (%s)" % out[0], "illegal-not-rejected")
+        mm = _LOC.match(out[1])
+        got = (mm.group(1), int(mm.group(2)), int(mm.group(3))) if mm else None
+        if got != (wfile, wline, wcol):
+            fail(subcheck, case, src, "illegal character inside a line directive at %s:%d:%d reported as %r" % (wfile, wline, wcol, out[1][:80]), "illegal-char-location-in-directive")
+        return
     _, tu, text = case
     tu = M.freshen(tu)
     rend = M.Renderer("min")
